@@ -1,4 +1,4 @@
-\* x42
+\* thorough: spec -> code export of every final graph
 SPECIFICATION Spec
 CONSTANTS
   Cand <- Cand4
